@@ -248,8 +248,9 @@ class Writer:
                         first += ' ' + tl[0]
                     for more in tl[1:]:
                         rest.append(more)       # (its indentation is part of the title: reference parsers work on the raw paragraph text)
-                out.append(L(first, False, [b] if not out else None))
-                for r in rest:
+                fl = first.split('\n')           # a label may run over lines
+                out.append(L(fl[0], False, [b] if not out else None))
+                for r in fl[1:] + rest:
                     out.append(L(r, False))
                 d['node'] = b
             return out
